@@ -23,6 +23,7 @@ type CConfig struct {
 	Late        bool     `json:"late"`               // every chain has one more service ("sl") that is not registered in the prologue: "register" steps submit it during the run
 	SplitGroups bool     `json:"split_groups"`       // one-to-many groups only from services of the first chain, one-to-one traffic only from the others (so that the two reference models never share a transaction id)
 	SamePairs   bool     `json:"same_pairs"`         // also pairs inside one appchain, incl. a service calling itself
+	AuditOps    bool     `json:"audit_ops,omitempty"` // audit nodes and audit administrators: registration, update, binding, logout, with proposals left open and decided later
 	RoleOps     bool     `json:"role_ops"`           // new governance administrators and the audit-administrator cycle are registered during the run (grant clause of C14)
 	RuleOps     bool     `json:"rule_ops"`           // rule lifecycle: further rules are registered, the master rule is updated through governance (approved or rejected), rules are logged out
 	RefRestart  []int    `json:"ref_restart"`        // profiles with a single replica: it is stopped and reopened after these block indexes
@@ -194,6 +195,7 @@ func Generate(prop string, r *sim.Rand, tier string) *sim.Plan {
 	cfg.SplitGroups = prop == "C06"
 	cfg.RuleOps = ((prop == "C03" || prop == "C16") && r.Chance(0.5)) || (prop == "C01" && len(cfg.Rules) > 0 && r.Chance(0.5))
 	cfg.RoleOps = prop == "C14" && r.Chance(0.4)
+	cfg.AuditOps = prop == "C16" && r.Chance(0.5)
 	switch prop {
 	case "C02", "C04", "C06", "C16", "C01":
 		cfg.SamePairs = r.Chance(0.4)
@@ -400,6 +402,13 @@ func (g *gen) step(prop string) []CStep {
 		}
 		if g.cfg.RuleOps && r.Chance(0.08) {
 			return []CStep{CStep{Op: "ruleop", A: r.Intn(4), N: r.Intn(2), Act: []string{"update", "update", "update", "register", "logout"}[r.Intn(5)], V: []string{"approve", "approve", "reject"}[r.Intn(3)]}}
+		}
+		if g.cfg.AuditOps && r.Chance(0.04) {
+			return []CStep{CStep{Op: "auditcycle", A: r.Intn(27), B: r.Intn(6), N: r.Intn(8)}}
+		}
+		if g.cfg.AuditOps && r.Chance(0.25) {
+			return []CStep{CStep{Op: "audop", A: r.Intn(6), B: r.Intn(6), N: r.Intn(4), V: []string{"approve", "approve", "reject"}[r.Intn(3)],
+				Act: []string{"regnode", "logoutnode", "logoutnode", "updatenode", "regadmin", "bind", "bind", "logoutrole", "logoutrole", "decide", "decide", "decide", "withdraw"}[r.Intn(13)]}}
 		}
 		if prop == "C15" && r.Chance(0.02) {
 			return []CStep{CStep{Op: "rolecycle", A: r.Intn(4), B: r.Intn(4), N: r.Intn(3)}}
